@@ -421,7 +421,7 @@ func main() {
 		})
 		f := failures[0]
 		violations = len(failures)
-		replayPath = recordViolation(b, id, *tier, f, *noShrink)
+		replayPath = recordViolation(b, id, *tier, seed, f, *noShrink)
 	}
 
 	runDur := wall - buildS
@@ -498,7 +498,7 @@ func main() {
 	exit(0)
 }
 
-func recordViolation(b *built, id, tier string, f simharness.FailRec, noShrink bool) string {
+func recordViolation(b *built, id, tier string, baseSeed uint64, f simharness.FailRec, noShrink bool) string {
 	os.MkdirAll(filepath.Join(verifDir, "replays"), 0o755)
 	raw := &simharness.ReplayFile{Property: id, Tier: tier, Seed: f.Seed, Class: f.Class, Msg: f.Msg, Hash: f.Hash, Tape: f.Tape, OrigLen: len(f.Tape)}
 	rawPath := filepath.Join(b.scratch, "raw.json")
@@ -506,11 +506,26 @@ func recordViolation(b *built, id, tier string, f simharness.FailRec, noShrink b
 	os.WriteFile(rawPath, rb, 0o644)
 	// 1. must reproduce in a fresh process
 	res := replayOnce(b, tier, rawPath)
+	final := filepath.Join(verifDir, "replays", fmt.Sprintf("%s-%d.json", id, f.Seed))
 	if res == nil || res["class"] != f.Class {
-		fmt.Fprintf(os.Stderr, "ENGINE: violation (class %s: %s) found at run seed %d does not reproduce in a fresh process: %v\n", f.Class, f.Msg, f.Seed, res)
+		// The run alone does not fail: does it fail after the runs its worker process had executed
+		// before it?  Then the verdict depends on state the code under test keeps in process
+		// globals (the unchanged tree has none that matters, a changed go-zero may add some); the
+		// replay file then carries those predecessor runs and is not shrunk.
+		if f.Index > f.Start {
+			raw.Pred = &simharness.PredRuns{BaseSeed: baseSeed, Slot: f.Slot, Start: f.Start, Count: f.Index - f.Start}
+			rb, _ = json.Marshal(raw)
+			os.WriteFile(rawPath, rb, 0o644)
+			if res2 := replayOnce(b, tier, rawPath); res2 != nil && res2["class"] == f.Class && res2["hash"] == f.Hash {
+				os.WriteFile(final, rb, 0o644)
+				fmt.Printf("violation class=%s run-seed=%d: %s\n", f.Class, f.Seed, f.Msg)
+				fmt.Printf("the violation does not reproduce in a fresh process but does after the %d runs its worker process had executed before it: it depends on process-global state of the code under test; the replay file carries those runs (not minimised)\n", f.Index-f.Start)
+				return final
+			}
+		}
+		fmt.Fprintf(os.Stderr, "ENGINE: violation (class %s: %s) found at run seed %d does not reproduce in a fresh process (nor after its %d predecessor runs): %v\n", f.Class, f.Msg, f.Seed, f.Index-f.Start, res)
 		os.Exit(2)
 	}
-	final := filepath.Join(verifDir, "replays", fmt.Sprintf("%s-%d.json", id, f.Seed))
 	fmt.Printf("violation class=%s run-seed=%d: %s\n", f.Class, f.Seed, f.Msg)
 	if !noShrink {
 		shr := filepath.Join(b.scratch, "shrunk.json")
